@@ -497,6 +497,10 @@ func (x *Exec) Do(op Op) (f *Fail) {
 			return mm("Close: %v", err)
 		}
 		x.DB = nil
+		if x.KeepPre {
+			x.PreImage = x.FileBytes()
+		}
+		x.TxLogStart = len(x.Tap.Log)
 		cfg := x.Cfg
 		if op.Cfg != nil {
 			ps := x.Cfg.PageSize
